@@ -93,6 +93,7 @@ func checkC01(r *evid.Run) {
 		}
 		checkTextAccept(r, d, concs)
 	})
+	sessionPhase(r) // Session.tla: the calls this property owns, after every other call of the alphabet
 	r.Set("exhaustive", true)
 	r.Set("rule", "every well-formed document of at most MaxLines item lines over the name set (every ordered forest with every pattern of repeated sibling names); non-trivial = at least 3 nodes")
 	traceDocs(r, "C01", traceSpecC01)
